@@ -92,6 +92,12 @@ def check(run):
         if k % 4 == 0:
             seq = seq[:1] + [f"rln chunk {hex(rng.choice([1, 5, 33]))}"] + seq[1:] + ["rln chunk 0x0"]     # the whole history through readers that deliver a few bytes per read()
         rs.append(seq)
+    # directed: every batch entry point rejected for a reason that only shows while its input is read (a reader that fails after
+    # delivering its bytes) on a POPULATED tree — the tree must be exactly as before, whichever call it was
+    for call in ("init_leaves 0x9,0x8", "set_leaves_from 0x1 0x9,0x8", "atomic 0x1 0x9 0x2", "set_leaf 0x1 0x9", "set_next 0x9"):
+        for mode in (("r", "r1") if call.startswith("atomic") else ("r",)):
+            rs.append(["rln new", "rln init_leaves 0x11,0x12,0x13,0x14", "rln root", f"rln io {mode} {call}", "rln root", "rln leaves_set", "rln empty",
+                       "rln get_leaf 0x0", "rln get_leaf 0x1", "rln get_leaf 0x3", "rln set_next 0x15", "rln root", "rln leaves_set"])
     run.differential("rln-batch-api-clean", [[l for l in s2 if not rln_shape(l)] for s2 in rs])
     run.differential("rln-batch-api-defect-region", rs, classify=classify_rln)
     # ---- the same API glue over the in-memory backends (builds of rln with --features fullmerkletree / --no-default-features):
